@@ -197,7 +197,7 @@ func (c11) Gen(r *sim.RNG, tier string, idx int) *Scenario {
 		sc.Cfg = nil
 		sc.Note = "element chain"
 	}
-	switch r.Intn(6) {
+	switch r.Intn(7) {
 	case 0:
 		w = relocate(w, "file://"+gen.Prefix+"/", "http://h.test/w/")
 	case 1:
@@ -205,6 +205,10 @@ func (c11) Gen(r *sim.RNG, tier string, idx int) *Scenario {
 	case 2:
 		// a folder whose name needs percent-encoding in a URL
 		w = relocate(w, "file://"+gen.Prefix+"/api/", "file://"+gen.Prefix+"/my%20api/")
+	case 3:
+		// a folder whose name holds characters a URL may carry either bare or escaped ("(", ")", "!"):
+		// the canonical location has them escaped, the plain path has them bare
+		w = relocate(w, "file://"+gen.Prefix+"/api/", "file://"+gen.Prefix+"/api%28v2%29%21/")
 	}
 	sc.World = w
 	k := 4
